@@ -211,6 +211,15 @@ func (w *World) concPhase(r *rand.Rand, sid int, mut []string, readers [][]strin
 				if k < 0 {
 					k = 0
 				}
+				if op := strings.Fields(l)[0]; op == "len" || op == "blocks" || op == "random" {
+					// several passes over possibly different versions: only "no panic, no hang"
+					if !strings.HasPrefix(o, "panic") && o != "hang" && o != "dead" {
+						o = "ok"
+					}
+					cr = append(cr, concRec{"cx " + l, o})
+					sched.yield()
+					continue
+				}
 				cr = append(cr, concRec{fmt.Sprintf("cr %d %s", k, l), o})
 				if mf != nil && keyOnlyOp(l) {
 					// C19 under concurrency: the reads THIS call made (other workers' reads interleave)
@@ -293,15 +302,31 @@ func cmdC05(args []string) {
 		for _, n := range names {
 			run("setcoll 1 " + hx([]byte(n)))
 		}
+		// drain-race histories (one in six): ONE small collection that the mutator empties and refills
+		// again and again, against readers that mostly make the multi-pass calls (Len, the block
+		// visitors) and Min/Max — the calls that look at the collection more than once
+		drain := r.Intn(6) == 0
+		var drainKeys [][]byte
+		if drain {
+			names = names[:1]
+		}
 		// sequential preparation
-		for i, n := 0, r.Intn(25); i < n; i++ {
+		prep := r.Intn(25)
+		if drain {
+			prep = 1 + r.Intn(3)
+		}
+		for i, n := 0, prep; i < n; i++ {
 			nm := names[r.Intn(len(names))]
 			k := g.key()
+			if drain {
+				k = []byte{byte('p' + i)} // distinct keys, so the mutator can delete exactly these
+				drainKeys = append(drainKeys, k)
+			}
 			run(fmt.Sprintf("set 1 %s %s %s %d", hx([]byte(nm)), hx(k), hx(g.val()), g.prio(nm, k)))
 		}
 		// flush-race histories: everything stays dirty, the phase is mostly flushes against readers
 		// that walk the whole collection (a walk evicts what it leaves) and then read values
-		race := !mem && r.Intn(3) == 0
+		race := !mem && !drain && r.Intn(3) == 0
 		if race && len(names) > 0 {
 			for i, n := 0, 3+r.Intn(10); i < n; i++ {
 				nm := names[r.Intn(len(names))]
@@ -336,7 +361,15 @@ func cmdC05(args []string) {
 			var p []string
 			for i, n := 0, 1+r.Intn(8); i < n; i++ {
 				nm := hx([]byte(names[r.Intn(len(names))]))
-				switch r.Intn(8) {
+				switch r.Intn(10) {
+				case 8:
+					p = append(p, fmt.Sprintf("len 1 %s", nm))
+				case 9:
+					if r.Intn(2) == 0 {
+						p = append(p, fmt.Sprintf("random 1 %s", nm))
+					} else {
+						p = append(p, fmt.Sprintf("blocks 1 %s %d %s", nm, r.Intn(2), []string{"id", "rev", "rand"}[r.Intn(3)]))
+					}
 				case 6:
 					p = append(p, fmt.Sprintf("geti 1 %s %s 0", nm, hx(g.key())))
 				case 7:
@@ -360,6 +393,36 @@ func cmdC05(args []string) {
 		nFlush := 0
 		if !mem {
 			nFlush = r.Intn(3)
+		}
+		if drain {
+			hn := hx([]byte(names[0]))
+			mut = nil
+			for round := 0; round < 2+r.Intn(3); round++ {
+				for _, k := range drainKeys {
+					mut = append(mut, fmt.Sprintf("del 1 %s %s", hn, hx(k)))
+				}
+				for _, k := range drainKeys {
+					mut = append(mut, fmt.Sprintf("set 1 %s %s %s %d", hn, hx(k), hx(g.val()), g.prio(names[0], k)))
+				}
+			}
+			readers = nil
+			for ri, nr := 0, 2+r.Intn(2); ri < nr; ri++ {
+				var p []string
+				for i, n := 0, 4+r.Intn(6); i < n; i++ {
+					switch r.Intn(6) {
+					case 0:
+						p = append(p, fmt.Sprintf("len 1 %s", hn))
+					case 1, 2:
+						p = append(p, fmt.Sprintf("random 1 %s", hn))
+					case 3, 4:
+						p = append(p, fmt.Sprintf("blocks 1 %s %d %s", hn, r.Intn(2), []string{"id", "rev", "rand"}[r.Intn(3)]))
+					case 5:
+						p = append(p, fmt.Sprintf("min 1 %s %d", hn, r.Intn(2)))
+					}
+				}
+				readers = append(readers, p)
+			}
+			extra["drain_histories"]++
 		}
 		if race {
 			nFlush = 2 + r.Intn(2)
